@@ -69,7 +69,19 @@ fn restart_cmd(cmds: &[(u8, Cmd)], inc: i64) -> Option<Cmd> {
     cmds.iter().find(|(k, _)| 2 + (*k % 3) as i64 == inc).map(|(_, c)| c.clone())
 }
 
+/// A processing element of the target that only records that an event of the module is being processed.
+struct Watch;
+impl des::net::processing::ProcessingElement for Watch {
+    fn event_start(&mut self) {
+        net::log("pe", 0, 0);
+    }
+}
+
 impl Module for Target {
+    fn stack(&self, mut stack: des::net::processing::ProcessingStack) -> des::net::processing::ProcessingStack {
+        stack.append(Watch);
+        stack
+    }
     fn num_sim_start_stages(&self) -> usize {
         2
     }
@@ -110,6 +122,11 @@ impl Module for Target {
     }
     fn reset(&mut self) {
         net::log("reset", self.inc, 0);
+    }
+    fn at_sim_end(&mut self) -> Result<(), RuntimeError> {
+        // tear-down is delivered to a shut-down module as well (documented); marked so that it is not mistaken for activity
+        net::log("end", self.inc, 0);
+        Ok(())
     }
 }
 
@@ -250,6 +267,8 @@ pub fn run_case(case: &Case) -> Result<(bool, Vec<&'static str>), Failure> {
     let mut cycles = 0;
     let mut shutdown_from_restart = false;
     let mut last_shutdown: Option<(u128, i64, u128)> = None; // (time, incarnation, next tick due)
+    // (shutdown instant, restart instant or end of time): the module is down strictly in between
+    let mut down: Vec<(u128, u128)> = Vec::new();
     loop {
         agenda.sort_by_key(|x| (x.0, x.1));
         if agenda.is_empty() {
@@ -313,17 +332,37 @@ pub fn run_case(case: &Case) -> Result<(bool, Vec<&'static str>), Failure> {
                 active = false;
                 want_t.push(r("t", "reset", inc, 0, now));
                 last_shutdown = Some((now, inc, now));
+                down.push((now, u128::MAX));
             }
             Some(Cmd::Restart(d)) => {
                 active = false;
                 want_t.push(r("t", "reset", inc, 0, now));
                 last_shutdown = Some((now, inc, now + d as u128 * MS));
+                down.push((now, now + d as u128 * MS));
                 push(&mut agenda, now + d as u128 * MS, Ev::Restart);
             }
         }
     }
+    // nothing of the module is processed while it is down: not even its processing elements see an event
+    let t_log: Vec<&Rec> = log.iter().filter(|x| x.path == "t").collect();
+    for (k, x) in t_log.iter().enumerate().filter(|(_, x)| x.kind == "pe") {
+        if t_log.get(k + 1).is_some_and(|n| n.kind == "end") {
+            continue;
+        }
+        if let Some((a, b)) = down.iter().find(|(a, b)| x.now > *a && x.now < *b) {
+            return Err(Failure::new(
+                "activity-of-shut-down-module-or-lost-event",
+                format!(
+                    "a processing element of the target saw an event at {} ns although the module is down from {a} ns to {} ns\ncase: {:?}",
+                    x.now,
+                    if *b == u128::MAX { "the end".to_string() } else { format!("{b} ns") },
+                    case
+                ),
+            ));
+        }
+    }
     let cmp = |what: &str, path: &str, want: &[Rec]| -> Result<(), Failure> {
-        let got: Vec<Rec> = log.iter().filter(|x| x.path == path).cloned().collect();
+        let got: Vec<Rec> = log.iter().filter(|x| x.path == path && x.kind != "pe" && x.kind != "end").cloned().collect();
         for (k, (g, w)) in got.iter().zip(want.iter()).enumerate() {
             if g != w {
                 let sig = if path == "t" {
@@ -403,7 +442,7 @@ impl Prop for C09 {
          messages, to generated (incarnation, tick) points of the task and to the last start-up stage of a restart, up to several cycles. All instants are distinct by construction \
          (microsecond offsets). Oracle: an incarnation model yields the exact log (kind, incarnation, time) of the target (start stages once each at \
          the restart time, ticks, handled messages, reset once per shutdown, nothing in down intervals or from older incarnations), of the \
-         bystander (messages through the target's gate dropped exactly while it is down) and of is_active() as seen by the driver. Non-trivial iff \
+         bystander (messages through the target's gate dropped exactly while it is down), no event seen by a processing element of the target strictly inside a down interval, and of is_active() as seen by the driver. Non-trivial iff \
          a message arrives during a down interval AND a timer of the old incarnation was due after the restart AND >= 2 restart cycles occur."
             .into()
     }
